@@ -44,7 +44,8 @@ def spec1 (f : Fn1) (m : Nat) : List Rat → Out :=
 def c04 (fn : String) (r : Req) : Option (String × String) :=
   -- relational run on windows of tens of thousands of observations, judged by the harness against a
   -- from-scratch fit on the implementation alone
-  if fn = "c04_big" then some ("OK", "OK") else
+  -- (`c05_i64`: the same kind of run for `ts_vminmaxnorm` on 64-bit integers above 2^53, C05)
+  if fn = "c04_big" ∨ fn = "c05_i64" then some ("OK", "OK") else
   let xs := r.series "xs"
   let w := r.nat "w" 1
   let mp := r.optNat "mp"
